@@ -24,7 +24,6 @@ func without(a []string, bad string) []string {
 
 var c15Frag = append(without(alpha.H2, "<="), "&#60;", "&#61;", "&#x3c", "&#x3d;", "javascript:", "onerror", "href", "style", "src", "data:", "xmlns", "-->", "]]>", "%>", ">", "/>", "' ", "\" ")
 
-
 // c15Spellings: every other way the three markup bytes are commonly written — URL, HTML reference, JS / CSS escape,
 // UTF-7 shifted unit, overlong UTF-8, full-width and small-form code points, the high-bit twin. A change that makes IsXSS read any of them
 // as the byte itself turns a '<'/'='-free input into a report, which C15 forbids.
